@@ -14,8 +14,8 @@ import os
 import vlib
 import progs
 
-THEOREM_MODULES = ["Yarel.Props.C04"]
-REQUIRED_THEOREMS = ["verify_sound", "checkAnnot_sound", "verify_unique_height", "verify_progress"]
+THEOREM_MODULES = ["Yarel.Props.C04", "Yarel.Props.OpcodeTable"]
+REQUIRED_THEOREMS = ["verify_sound", "checkAnnot_sound", "verify_unique_height", "verify_progress", "opcode_table_agrees"]
 USES_GEN = True
 LEVEL = "proof"
 ASSUMPTIONS = [
